@@ -706,7 +706,7 @@ def judge(ctx, binp, pool, rejected):
         r2 = ctx.validate_histories(TRACE[0], TRACE[1], [events(again) + [{"e": "End"}]], tag="re", max_reject=1)
         if not r2:
             raise vlib.ToolError("rejected execution did not reproduce (flaky harness?): %s" % e.lines())
-        small = shrink(ctx, binp, again)
+        small = again if os.environ.get("VERIF_NO_SHRINK") else shrink(ctx, binp, again)    # (debugging aid)
         execute(ctx, binp, [small], jobs=1)
         r3 = ctx.validate_histories(TRACE[0], TRACE[1], [events(small) + [{"e": "End"}]], tag="re2", max_reject=1)
         if not r3:
